@@ -7,6 +7,9 @@ field `K` (so in particular over ℝ and over the `Rat` the oracle runs at).  `L
 the semantics of DESIGN.md appendix A (`Rooc/Proofs/Cert.lean`).
 -/
 import Rooc.Proofs.Cert
+import Rooc.Proofs.ComposeSimplexExamples
+import Rooc.Proofs.ComposeSemExamples
+import Rooc.Proofs.RatInst
 import Mathlib.Data.Rat.Floor
 namespace Rooc.Props.C05
 open Rooc Rooc.Cert
@@ -209,5 +212,186 @@ example : @checkMilpOptimal ℚ (fieldExact ℚ) ⟨.max, [1], 0, [], [.bool]⟩
     rw [Int.floor_eq_iff]; constructor <;> norm_num
   simp [checkMilpOptimal, checkPoint, domsHold, domHolds, absK, leaves, hr, checkLeaves, checkLeaf, checkLowerBound,
     LP.fix, Prob.relax, negList, fixBnds, fixBnd, Dom.bnd, dualBound, reduce, bndSum, bndTerm]
+
+/-! ## rooc's built-in simplex (`solve_real_lp_problem_slow_simplex`), end to end at exact arithmetic: C13 ∘ C14
+
+The path is `to_standard_form` (`Standardize.standardize`, C13) → `into_tableau` → the loop `solve` of
+`Rooc/Tableau.lean` (C14) → `variables_values` / `optimal_value`.  C13 is stated over `StdModel (Ext K)` and
+positional points, C14 over `Tab K` at the exact instance; the adapters (`ComposeSimplex.stdK`, `stdFeasible_iff`,
+`stdObj_eq`, `flip_iff_max`, `solveLoop_error_step`, `solve_flip_offset`) are in `Rooc/Proofs/ComposeSimplex.lean`.
+
+`ComposeSimplex.CanonicalFor T sK` is the interface between start and loop: `T` is a canonical feasible tableau with the
+solution set and the objective row of the standard form `sK`, sign flip and offset copied.
+`slow_simplex_direct_start_partial` produces it for the direct start of `into_tableau` (C14
+`into_tableau_canonical_partial` + C13 `std_shape`); for the two-phase start it is a HYPOTHESIS — the lemma that is
+missing in C14 is "the tableau returned by `into_tableau_two_phase` (artificial drive-out, redundant-row drop, cost
+restoration) is `CanonicalFor` the standard form", listed as planned there.
+
+Exact comparisons (`tol = 0` in the loop) are essential: `Rooc.Props.C14.finished_optimal_tol_counterexample` /
+`pivot_feasible_tol_counterexample` refute both statements for `tol > 0`. -/
+section SlowSimplex
+open Tableau TabSem StdSem StdMain Standardize ComposeSimplex
+attribute [local instance] exactArith
+
+/-- **`Finished` at exact arithmetic ⇒ feasible and optimal for the ORIGINAL model.**  For a well-formed continuous
+`lm`, its standard form `s`, any canonical feasible tableau `T` of `s`, any stall parameter, iteration limit and
+preference list: if the loop stops with success then the point mapped back from `variables_values` (C13's `preimage`:
+`x = p − m` on split variables, slack columns dropped) satisfies every row and every declared bound of `lm`, no
+feasible point of `lm` has a better objective in `lm`'s direction, and `optimal_value` of the final tableau IS the
+objective of `lm` (offset and `max` sign included) at that point. -/
+theorem slow_simplex_optimal_exact {lm : LinModel (Ext K)} (hW : WF lm) {s : StdModel (Ext K)}
+    (hs : standardize lm = .ok s) {T : Tab K} (hT : CanonicalFor T (stdK s))
+    (stallExtra limit : Nat) (prefer : List Nat)
+    (hfin : (solve (0:K) stallExtra limit prefer T).result = .ok ()) :
+    LinFeasible lm (preimage lm (basicSolution (solve (0:K) stallExtra limit prefer T).final)) ∧
+    (∀ x, LinFeasible lm x →
+      (lm.optType = .min →
+        obj lm (preimage lm (basicSolution (solve (0:K) stallExtra limit prefer T).final)) ≤ obj lm x) ∧
+      (lm.optType = .max →
+        obj lm x ≤ obj lm (preimage lm (basicSolution (solve (0:K) stallExtra limit prefer T).final)))) ∧
+    optimalValue (solve (0:K) stallExtra limit prefer T).final =
+      obj lm (preimage lm (basicSolution (solve (0:K) stallExtra limit prefer T).final)) :=
+  finished_optimal hW hs hT stallExtra limit prefer hfin
+
+/-- **`Unbounded` at exact arithmetic ⇒ the ORIGINAL model is unbounded**: for every bound `M` there is a feasible
+point of `lm` with objective `< M` (`min`) / `> M` (`max`). -/
+theorem slow_simplex_unbounded_exact {lm : LinModel (Ext K)} (hW : WF lm) {s : StdModel (Ext K)}
+    (hs : standardize lm = .ok s) {T : Tab K} (hT : CanonicalFor T (stdK s))
+    (stallExtra limit : Nat) (prefer : List Nat)
+    (hunb : (solve (0:K) stallExtra limit prefer T).result = .error .unbounded) (M : K) :
+    ∃ x, LinFeasible lm x ∧ (lm.optType = .min → obj lm x < M) ∧ (lm.optType = .max → M < obj lm x) :=
+  unbounded_original hW hs hT stallExtra limit prefer hunb M
+
+/-- **phase-1 optimum below zero at exact arithmetic ⇒ the ORIGINAL model is infeasible** (C13 `fwd`, `std_shape` ∘ C14
+`phase1_feasible_value_bound` at `tol = 0`): when the artificial variables of `into_tableau_two_phase` cannot be
+driven to zero, no point satisfies `lm`.  (The tolerance version is C14 `phase1_nonzero_infeasible_partial`.) -/
+theorem slow_simplex_infeasible_exact {lm : LinModel (Ext K)} (hW : WF lm) {s : StdModel (Ext K)}
+    (hs : standardize lm = .ok s) (stallExtra limit : Nat) (prefer : List Nat)
+    (hok : (solve (0:K) stallExtra limit prefer (phase1Tab (stdK s))).result = .ok ())
+    (hneg : (solve (0:K) stallExtra limit prefer (phase1Tab (stdK s))).final.value < 0) :
+    ¬ ∃ x, LinFeasible lm x :=
+  phase1_negative_infeasible hW hs stallExtra limit prefer hok hneg
+
+/-- the loop has exactly three outcomes; the third (`IterationLimitReached`) is reported as `LimitReached` and
+carries no claim. -/
+theorem slow_simplex_outcomes (tol : K) (stallExtra limit : Nat) (prefer : List Nat) (T : Tab K) :
+    (solve tol stallExtra limit prefer T).result = .ok () ∨
+    (solve tol stallExtra limit prefer T).result = .error .unbounded ∨
+    (solve tol stallExtra limit prefer T).result = .error .iterationLimit :=
+  solve_outcomes tol stallExtra limit prefer T
+
+/-- **the direct start provides the interface** (C14 `into_tableau_canonical_partial` with its shape hypotheses
+discharged by C13 `std_shape`).  PARTIAL: `tol > 0` and the two decidable data hypotheses of
+`into_tableau_canonical_partial` — no entry of `A` with `0 < |a| < tol`, and a usable independent column for every row
+(otherwise `into_tableau` takes the two-phase start, see the section header). -/
+theorem slow_simplex_direct_start_partial {tol : K} (ht : 0 < tol) {lm : LinModel (Ext K)} (hW : WF lm)
+    {s : StdModel (Ext K)} (hs : standardize lm = .ok s) (stallExtra phase1Limit : Nat)
+    (hN : Start.NoSubTol tol ((stdK s).rows.map (·.coeffs)))
+    (hdir : (stdK s).rows.length ≤ (independentColumns tol (stdK s).vars.length ((stdK s).rows.map (·.coeffs))).length ∧
+      (selectPerRow (stdK s).rows.length
+        (independentColumns tol (stdK s).vars.length ((stdK s).rows.map (·.coeffs)))).length = (stdK s).rows.length) :
+    ∃ T, intoTableau tol stallExtra phase1Limit (stdK s) = .ok T ∧ CanonicalFor T (stdK s) :=
+  direct_start_canonicalFor ht hW hs stallExtra phase1Limit hN hdir
+
+/-! ### the built-in simplex honours the solver contract that C03's composition assumes
+
+`Rooc/Proofs/ComposeSem.lean` relates the two readings of a linear model: by NAME (`Sem.linFeasible`,
+`Sem.linObjective`: C01/C02/C03) and POSITIONAL (`StdSem.LinFeasible`, `StdSem.obj`: C13).  They coincide along
+`x = lm.vars.map ρ` when the variable names are distinct, the domain declares exactly them (`ComposeSem.DomVars`) and
+`NonNegativeReal(lo, _)` has `0 ≤ lo` (`ComposeSem.NNOK`; otherwise the standardizer's `x ≥ 0` and the by-name domain
+disagree — DESIGN.md appendix A).  `ComposeSem.pointOf vars x` is the assignment `varsᵢ ↦ xᵢ`. -/
+
+/-- **`Finished` at exact arithmetic ⇒ `Compose.LinOptimal`**, with `optimal_value` as the linear objective
+(offset included) at the returned point. -/
+theorem slow_simplex_linOptimal_exact {lm : LinModel (Ext K)} (hW : WF lm) (hnn : ∀ d ∈ lm.domain, ComposeSem.NNOK d.ty)
+    (hdv : ComposeSem.DomVars lm) (hnd : lm.vars.Nodup) {s : StdModel (Ext K)} (hs : standardize lm = .ok s)
+    {T : Tab K} (hT : CanonicalFor T (stdK s)) (stallExtra limit : Nat) (prefer : List Nat)
+    (hfin : (solve (0:K) stallExtra limit prefer T).result = .ok ()) :
+    Compose.LinOptimal lm
+      (ComposeSem.pointOf lm.vars (preimage lm (basicSolution (solve (0:K) stallExtra limit prefer T).final))) ∧
+    Sem.linObjective lm
+      (ComposeSem.pointOf lm.vars (preimage lm (basicSolution (solve (0:K) stallExtra limit prefer T).final))) =
+      some (optimalValue (solve (0:K) stallExtra limit prefer T).final) :=
+  ComposeSem.simplex_linOptimal hW hnn hdv hnd hs hT stallExtra limit prefer hfin
+
+/-- **`Unbounded` at exact arithmetic ⇒ `Compose.LinUnbounded`.** -/
+theorem slow_simplex_linUnbounded_exact {lm : LinModel (Ext K)} (hW : WF lm) (hnn : ∀ d ∈ lm.domain, ComposeSem.NNOK d.ty)
+    (hdv : ComposeSem.DomVars lm) (hnd : lm.vars.Nodup) {s : StdModel (Ext K)} (hs : standardize lm = .ok s)
+    {T : Tab K} (hT : CanonicalFor T (stdK s)) (stallExtra limit : Nat) (prefer : List Nat)
+    (hunb : (solve (0:K) stallExtra limit prefer T).result = .error .unbounded) : Compose.LinUnbounded lm :=
+  ComposeSem.simplex_linUnbounded hW hnn hdv hnd hs hT stallExtra limit prefer hunb
+
+/-- **phase-1 optimum below zero at exact arithmetic ⇒ `Compose.LinInfeasible`.** -/
+theorem slow_simplex_linInfeasible_exact {lm : LinModel (Ext K)} (hW : WF lm) (hnn : ∀ d ∈ lm.domain, ComposeSem.NNOK d.ty)
+    (hdv : ComposeSem.DomVars lm) {s : StdModel (Ext K)} (hs : standardize lm = .ok s)
+    (stallExtra limit : Nat) (prefer : List Nat)
+    (hok : (solve (0:K) stallExtra limit prefer (phase1Tab (stdK s))).result = .ok ())
+    (hneg : (solve (0:K) stallExtra limit prefer (phase1Tab (stdK s))).final.value < 0) : Compose.LinInfeasible lm :=
+  ComposeSem.simplex_linInfeasible hW hnn hdv hs stallExtra limit prefer hok hneg
+
+/-- the adapter itself: by-name feasibility / objective = positional feasibility / objective. -/
+theorem linFeasible_iff_positional {lm : LinModel (Ext K)} (hW : WF lm) (hnn : ∀ d ∈ lm.domain, ComposeSem.NNOK d.ty)
+    (hdv : ComposeSem.DomVars lm) (ρ : String → K) :
+    (Sem.linFeasible lm ρ = true ↔ LinFeasible lm (lm.vars.map ρ)) ∧
+    Sem.linObjective lm ρ = some (obj lm (lm.vars.map ρ)) :=
+  ⟨ComposeSem.linFeasible_iff lm hW hnn hdv ρ, ComposeSem.linObjective_eq lm hW ρ⟩
+
+/-! ### non-vacuity (`K = ℚ`): `min −x s.t. x ≤ 2, x ≥ 0` is solved, `min −x s.t. −x ≤ 2, x ≥ 0` is unbounded -/
+section examples
+attribute [local instance 2000] fieldExact
+
+/-- the standard form of `exMin` is computed by the kernel on the running definition; the tableau `exT` is canonical
+for it; the loop (exact comparisons, stall parameter 1, limit 10) pivots once and stops `Finished`. -/
+example : standardize exMin = .ok exMinStd ∧ WF exMin ∧ CanonicalFor exT (stdK exMinStd) ∧
+    (solve (0:ℚ) 1 10 [] exT).result = .ok () :=
+  ⟨exMin_std, exMin_wf, exT_canonicalFor, exT_solve.1⟩
+
+/-- … so `slow_simplex_optimal_exact` applies: the mapped-back point is `x = 2`, it is feasible, no feasible point
+has a smaller objective, and the reported optimal value is `−2`. -/
+example : LinFeasible exMin [2] ∧ (∀ x, LinFeasible exMin x → obj exMin [2] ≤ obj exMin x) ∧
+    optimalValue (solve (0:ℚ) 1 10 [] exT).final = -2 := by
+  obtain ⟨h1, h2, h3⟩ := slow_simplex_optimal_exact exMin_wf exMin_std exT_canonicalFor 1 10 [] exT_solve.1
+  rw [exT_solve.2, exT'_preimage] at h1 h2 h3
+  refine ⟨h1, fun x hx => (h2 x hx).1 rfl, ?_⟩
+  rw [exT_solve.2, h3]
+  simp [obj, rowVal, exMin, toK]
+
+/-- the hypotheses of `slow_simplex_unbounded_exact` are satisfiable, and it applies. -/
+example : standardize exUnb = .ok exUnbStd ∧ WF exUnb ∧ CanonicalFor exTU (stdK exUnbStd) ∧
+    (solve (0:ℚ) 1 10 [] exTU).result = .error .unbounded ∧
+    ∀ M : ℚ, ∃ x, LinFeasible exUnb x ∧ obj exUnb x < M :=
+  ⟨exUnb_std, exUnb_wf, exTU_canonicalFor, exTU_solve, fun M => by
+    obtain ⟨x, hx, hmin, _⟩ :=
+      slow_simplex_unbounded_exact exUnb_wf exUnb_std exTU_canonicalFor 1 10 [] exTU_solve M
+    exact ⟨x, hx, hmin rfl⟩⟩
+
+/-- the hypotheses of `slow_simplex_infeasible_exact` are satisfiable (`min x s.t. x ≤ −1, x ≥ 0`: the phase-1 tableau
+is optimal at once, at value `−1`), and it applies. -/
+example : standardize exInf = .ok exInfStd ∧ WF exInf ∧ ¬ ∃ x, LinFeasible exInf x := by
+  refine ⟨exInf_std, exInf_wf, slow_simplex_infeasible_exact exInf_wf exInf_std 1 10 [] ?_ ?_⟩
+  · rw [exInf_phase1]; exact (exTI_solve []).1
+  · rw [exInf_phase1, (exTI_solve []).2]; norm_num
+
+/-- the hypotheses of `slow_simplex_direct_start_partial` are satisfiable (tolerance `1e-5`), and the tableau it
+yields for `exMin` is `exT`. -/
+example : Start.NoSubTol (1/100000 : ℚ) ((stdK exMinStd).rows.map (·.coeffs)) ∧
+    (stdK exMinStd).rows.length ≤
+      (independentColumns (1/100000 : ℚ) (stdK exMinStd).vars.length ((stdK exMinStd).rows.map (·.coeffs))).length ∧
+    (selectPerRow (stdK exMinStd).rows.length
+      (independentColumns (1/100000 : ℚ) (stdK exMinStd).vars.length ((stdK exMinStd).rows.map (·.coeffs)))).length
+        = (stdK exMinStd).rows.length :=
+  exMin_direct_hyps
+
+/-- `slow_simplex_linOptimal_exact` applies to `max x s.t. x ≤ 2, x ≥ 0` (sign flip recorded): the by-name point
+`x ↦ 2` satisfies the solver contract, with linear objective 2. -/
+example : Compose.LinOptimal ComposeSem.exMax (ComposeSem.pointOf ["x"] [2]) ∧
+    Sem.linObjective ComposeSem.exMax (ComposeSem.pointOf ["x"] [2]) = some 2 := by
+  have h := slow_simplex_linOptimal_exact ComposeSem.exMax_wf ComposeSem.exMax_nnok ComposeSem.exMax_domVars
+    ComposeSem.exMax_nodup ComposeSem.exMax_std ComposeSem.exTM_canonicalFor 1 10 [] ComposeSem.exTM_solve.1
+  rw [ComposeSem.exTM_solve.2, ComposeSem.exTM'_preimage, ComposeSem.exTM'_value] at h
+  exact h
+
+end examples
+end SlowSimplex
 
 end Rooc.Props.C05
